@@ -508,6 +508,11 @@ def _find_registered_methods(cls, selector):
       _REGISTRY.pop(old_selector)
       _REGISTRY[new_selector] = method_info
       _INVERSE_REGISTRY[method] = method_info
+      # Bindings made (and calls recorded) under the provisional selector follow
+      # the rename; left behind they would name no registered configurable.
+      for config in (_CONFIG, _CONFIG_PROVENANCE, _OPERATIVE_CONFIG):
+        for key in [key for key in config if key[1] == old_selector]:
+          config[key[0], new_selector] = config.pop(key)
       registered_methods[name] = method_info.wrapper
     else:
       if _inverse_lookup(method, allow_decorators=True):
